@@ -1,11 +1,189 @@
-/- C20 — executable model (stub; filled in by the property's owner). -/
-import Mahotas.Model.Border
-import Mahotas.Model.DType
+/-
+C20 — colour conversions (`colors.py`) and `stretch` / `stretch_rgb` (`stretch.py`).
+
+The matrices, constants and the `np.choose` selections come from `Generated/Tables.lean`
+(regenerated from the sources on every run). The linear parts are written once, polymorphic in the
+scalar type: the driver runs them at `Float`, the theorems are proved at `Rat`.
+-/
+import Mahotas.Model.Basic
+import Mahotas.Generated.Tables
 namespace Mahotas.C20
-open Mahotas
+open Mahotas Mahotas.Generated
+
+/-! ## linear part (polymorphic) -/
+
+/-- dot product of two lists (missing entries count as 0) -/
+def dot {α : Type} [Add α] [Mul α] [OfNat α 0] : List α → List α → α
+  | a :: as, b :: bs => a * b + dot as bs
+  | _, _ => 0
+
+/-- matrix (list of rows) times vector: what `_convert` does along the channel axis -/
+def matVec {α : Type} [Add α] [Mul α] [OfNat α 0] (m : List (List α)) (v : List α) : List α :=
+  m.map (fun row => dot row v)
+
+/-- matrix product (rows of `a` times columns of `b`, `b` given by rows, 3 columns) -/
+def col {α : Type} [OfNat α 0] (b : List (List α)) (j : Nat) : List α := b.map (fun r => r.getD j 0)
+
+def matMul {α : Type} [Add α] [Mul α] [OfNat α 0] (a b : List (List α)) : List (List α) :=
+  a.map (fun row => (List.range 3).map (fun j => dot row (col b j)))
+
+/-- `rgb2grey`: `np.dot(array, [0.30, 0.59, 0.11])` -/
+def grey {α : Type} [Add α] [Mul α] [OfNat α 0] (w : List α) (r g b : α) : α := dot w [r, g, b]
+
+/-! ## transfer functions (Float; `pow` is not available in exact arithmetic) -/
+
+/-- sRGB decoding of one channel value `c ∈ [0,255]`; `lowBelow` says which alternative
+    `np.choose` takes where `c/255 ≤ knee` (the standard: the linear segment). -/
+def srgbToLinearWith (lowBelow : Bool) (c : Float) : Float :=
+  let x := c / srgbScaleF
+  let high := Float.pow ((x + srgbAF) / (1.0 + srgbAF)) srgbGammaF
+  let low := x / srgbSlopeF
+  if x ≤ srgbKneeF then (if lowBelow then low else high) else (if lowBelow then high else low)
+
+/-- sRGB encoding of one linear value, result scaled to 0..255 -/
+def linearToSrgbWith (lowBelow : Bool) (v : Float) : Float :=
+  let high := (1.0 + srgbAInvF) * Float.pow v (1.0 / 2.4) - srgbAInvF
+  let low := srgbSlopeInvF * v
+  (if v ≤ srgbKneeInvF then (if lowBelow then low else high) else (if lowBelow then high else low)) * 255.0
+
+/-- the CIE L*a*b* helper `f`; `smallBelow` = which alternative is taken where `t ≤ (6/29)^k` -/
+def labFWith (smallBelow : Bool) (k : Nat) (t : Float) : Float :=
+  let large := Float.pow t (1.0 / 3.0)
+  let small := ((1.0 / 3.0) * (29.0 / 6.0) * (29.0 / 6.0)) * t + 4.0 / 29.0
+  let knee := Float.pow (labDeltaNumF / labDeltaDenF) (Float.ofNat k)
+  if t ≤ knee then (if smallBelow then small else large) else (if smallBelow then large else small)
+
+def rgb2xyzWith (lowBelow : Bool) (rgb : List Float) : List Float :=
+  matVec rgb2xyzMF (rgb.map (srgbToLinearWith lowBelow))
+
+def xyz2rgbWith (lowBelow : Bool) (xyz : List Float) : List Float :=
+  (matVec xyz2rgbMF xyz).map (linearToSrgbWith lowBelow)
+
+def xyz2labWith (smallBelow : Bool) (k : Nat) (xyz : List Float) : List Float :=
+  match xyz, labWhiteF with
+  | [x, y, z], [xn, yn, zn] =>
+    let fx := labFWith smallBelow k (x / xn)
+    let fy := labFWith smallBelow k (y / yn)
+    let fz := labFWith smallBelow k (z / zn)
+    [116.0 * fy - 16.0, 500.0 * (fx - fy), 200.0 * (fy - fz)]
+  | _, _ => []
+
+/-- model of the code as it is (selections as extracted) -/
+def rgb2xyz := rgb2xyzWith fwdLowWhenBelow
+def xyz2rgb := xyz2rgbWith invLowWhenBelow
+def xyz2lab := xyz2labWith labSmallWhenBelow labKneeExp
+def rgb2lab (rgb : List Float) : List Float := xyz2lab (rgb2xyz rgb)
+
+/-! ### specification: the sRGB (IEC 61966-2-1) / CIE L*a*b* definitions with the standards' own numbers,
+written out independently of the extracted tables (`C20_model_is_standard` proves the two coincide
+for the tree the tables were extracted from) -/
+
+def stdM : List (List Float) := [[0.4124, 0.3576, 0.1805], [0.2126, 0.7152, 0.0722], [0.0193, 0.1192, 0.9505]]
+def stdMInv : List (List Float) := [[3.2406, -1.5372, -0.4986], [-0.9689, 1.8758, 0.0415], [0.0557, -0.204, 1.057]]
+
+def srgbToLinearStd (c : Float) : Float :=
+  let x := c / 255.0
+  if x ≤ 0.04045 then x / 12.92 else Float.pow ((x + 0.055) / (1.0 + 0.055)) 2.4
+
+def linearToSrgbStd (v : Float) : Float :=
+  (if v ≤ 0.0031308 then 12.92 * v else (1.0 + 0.055) * Float.pow v (1.0 / 2.4) - 0.055) * 255.0
+
+def labFStd (t : Float) : Float :=
+  if t ≤ Float.pow (6.0 / 29.0) (Float.ofNat 3) then ((1.0 / 3.0) * (29.0 / 6.0) * (29.0 / 6.0)) * t + 4.0 / 29.0
+  else Float.pow t (1.0 / 3.0)
+
+def rgb2xyzSpec (rgb : List Float) : List Float := matVec stdM (rgb.map srgbToLinearStd)
+def xyz2rgbSpec (xyz : List Float) : List Float := (matVec stdMInv xyz).map linearToSrgbStd
+def xyz2labSpec (xyz : List Float) : List Float :=
+  match xyz with
+  | [x, y, z] =>
+    let fx := labFStd (x / 0.95047)
+    let fy := labFStd (y / 1.0)
+    let fz := labFStd (z / 1.08883)
+    [116.0 * fy - 16.0, 500.0 * (fx - fy), 200.0 * (fy - fz)]
+  | _ => []
+def rgb2labSpec (rgb : List Float) : List Float := xyz2labSpec (rgb2xyzSpec rgb)
+
+/-- `rgb2sepia`: matrix product in double, cast to float32, clipped to [0,255], cast to uint8 -/
+def sepia (rgb : List Float) : List Nat :=
+  (matVec sepiaMF rgb).map fun v =>
+    let s := v.toFloat32
+    let s := if s < 255.0 then s else 255.0      -- np.minimum(sepia, 255)
+    let s := if s < 0.0 then 0.0 else s          -- np.maximum(sepia, 0)
+    s.toUInt8.toNat
+
+/-- specification of sepia over the rationals for integer channels: floor of the clipped exact value -/
+def sepiaSpecQ (r g b : Int) : List Int :=
+  (matVec sepiaMQ [(r : Rat), (g : Rat), (b : Rat)]).map fun v =>
+    let v := if v < 255 then v else 255
+    let v := if v < 0 then 0 else v
+    v.floor
+
+/-! ## stretch -/
+
+/-- the affine map of `stretch`: `(x - mn) * ((hi - lo) / ptp) + lo` -/
+def stretchCore {α : Type} [Add α] [Sub α] [Mul α] [Div α] (mn ptp lo hi x : α) : α :=
+  (x - mn) * ((hi - lo) / ptp) + lo
+
+/-- `if max >= min: np.minimum(img, max, out=img)`: rounding must not carry a pixel above `hi` -/
+def capHi {α : Type} [LT α] [DecidableLT α] (lo hi y : α) : α :=
+  if hi < lo then y else if hi < y then hi else y
+
+def minL {α : Type} [LT α] [DecidableLT α] : α → List α → α
+  | m, [] => m
+  | m, x :: xs => minL (if x < m then x else m) xs
+
+def maxL {α : Type} [LT α] [DecidableLT α] : α → List α → α
+  | m, [] => m
+  | m, x :: xs => maxL (if m < x then x else m) xs
+
+/-- `stretch` before the final cast: `img -= img.min(); ptp = img.ptp();` constant image ↦ all `lo`,
+    otherwise the affine map (`x ↦ (x - min) * ((hi - lo)/ptp) + lo`) capped at `hi`. -/
+def stretchList {α : Type} [Add α] [Sub α] [Mul α] [Div α] [LT α] [DecidableLT α] [OfNat α 0]
+    (xs : List α) (lo hi : α) : List α :=
+  match xs with
+  | [] => []
+  | x0 :: rest =>
+    let mn := minL x0 rest
+    let ptp := maxL (x0 - mn) (rest.map (· - mn))
+    if 0 < ptp then xs.map (fun x => capHi lo hi (stretchCore mn ptp lo hi x)) else xs.map (fun _ => lo)
+
+/-- C cast double → integer dtype (truncation towards zero); exact for |v| < 2^63 -/
+def truncF (v : Float) : Int := v.toInt64.toInt
+
+/-! ## driver -/
+
+def triples (xs : List Float) : List (List Float) :=
+  match xs with
+  | r :: g :: b :: rest => [r, g, b] :: triples rest
+  | _ => []
 
 def handle (a : Args) : String :=
   match a.str "kind" with
+  | "rgb" =>
+    let ts := triples (a.floats "rgb")
+    let xyz := ts.map rgb2xyz
+    let cat := fun (l : List (List Float)) => showFloats l.flatten
+    s!"xyz={cat xyz} xyzspec={cat (ts.map rgb2xyzSpec)} lab={cat (ts.map rgb2lab)} " ++
+    s!"labspec={cat (ts.map rgb2labSpec)} back={cat (xyz.map xyz2rgb)} " ++
+    s!"grey={showFloats (ts.map fun t => dot greyWF t)} sepia={showNats (ts.map sepia).flatten}"
+  | "xyz2rgb" =>
+    let ts := triples (a.floats "xyz")
+    s!"rgb={showFloats (ts.map xyz2rgb).flatten} rgbspec={showFloats (ts.map xyz2rgbSpec).flatten}"
+  | "sepiaq" =>
+    let v := a.ints "rgb"
+    let rec go : List Int → List Int
+      | r :: g :: b :: rest => sepiaSpecQ r g b ++ go rest
+      | _ => []
+    s!"sepia={showInts (go v)}"
+  | "stretch" =>
+    let xs := a.floats "data"
+    let lo := Float.ofInt (a.int "lo")
+    let hi := Float.ofInt (a.int "hi")
+    let ys := stretchList xs lo hi
+    s!"float={showFloats ys} int={showInts (ys.map truncF)}"
+  | "consts" =>
+    s!"m={showFloats (rgb2xyzMF.flatten ++ xyz2rgbMF.flatten ++ sepiaMF.flatten ++ greyWF ++ labWhiteF)}"
   | k => s!"error=unknown-kind-{k}"
 
 end Mahotas.C20
